@@ -34,20 +34,31 @@
     GIVEN thin QR factorisations of the occurring shapes (`QRProvider`: every `(l·d) × m` matrix is `c • (Q R)` with
     `Q` of `min(l·d, m)` orthonormal columns, for the non-zero scalar `c` the oracle reports).
 
+  NOW PROVED in Props/C12/Link2.lean (helpers Lemmas/SweepLink2.lean; this file is unchanged apart from this block):
+  * `svd_run_has_derivation` — the converse for runs with SVD steps — `Link2.svd_run_has_derivation` (loop),
+    `Link2.svd_lcf_run_has_derivation` (padded `lcf`), `Link2.svd_rcf_run_has_derivation` (`rcf`, through the reversal),
+    `Link2.svd_truncate_run_has_derivation` (`truncate`, both sweeps).
+    It is not a provider-style statement: the oracle's `sig` must BE the singular values of the matrix met at that step
+    (which depends on the factors chosen before); the per-step hypothesis "the matrix met has an SVD whose values are
+    the oracle's list" is threaded through the chain as the inductive predicate `SweepLink2.SvdCons` (for every choice
+    of earlier factors), next to `QRProvider`.
+  * zero branches — `SweepLink2.zeroChain` is `zeros_like` in the chain model and evaluates to `0 • ψ`
+    (`Link2.zeros_like_represents_zero`, `zeros_like_eq_zero_smul`, `zero_flag_returns_zero_state`); derivations that END
+    in a zero exit (`r_norm = 0`, `max_s = 0`, tol discards all — kept rank 0 —, `ln = 0`) are `SweepLink2.ZSweep`, their
+    shadow is `zeros_like` + flag (`Link2.zero_exit_shadow`), and when nothing was discarded before the exit the state
+    itself is 0 (`Link2.zero_exit_exact`, `zero_exit_exact_qr`).
+  * E, W of an MPO — merging the physical legs (`SweepLink2.flat`) commutes with the loop, `lcf`, `rcf`, `truncate`
+    (`Link2.mpo_sweep_flat`, `mpo_lcf_flat`, `mpo_truncate_flat`), so two MPOs with equal bonds and equal `E·W` have the
+    same control flow (`Link2.mpo_same_control_flow`) and an MPO with `E·W = d` is the shadow of the same derivation
+    (`Link2.mpo_lcf_shadow`).
+
   STATED, NOT PROVED:
-  * `svd_run_has_derivation` — the converse for runs with SVD steps.  It cannot be a provider-style statement: the
-    oracle's `sig` must BE the singular values of the matrix met at that step (which depends on the factors chosen
-    before), so the right statement is "if at every SVD step the matrix has an SVD whose values are the oracle's list,
-    the run is the shadow of a derivation" with that per-step hypothesis threaded through the chain; not done.  The
-    converse for `rcf` / `truncate` (through the reversal) is not stated either.
+  * that the oracle's `last ln` of `truncate` is the norm of the last site (`hnorm` of `truncate_linked`) is a numeric
+    fact about the oracle, no consequence of a run of the shape model; see the header of Link2.lean.
   * `LSweep` / `TSweep` derivations with irrational scalars `c` have no oracle to read off (`Orc` holds rationals — the
     code's floats); `RSweep` asks `(rn : ℝ) = c`.  The shape model itself only tests `rn = 0`.
-  * zero branches: a derivation in which some scalar `c` is 0 (or `ln = 0`), or in which tol discards every singular
-    value of a step (kept rank 0, `tol_discards_all_gives_zeros` in Props/C12.lean), has no `RSweep` — the shape model
-    answers `zeros_like` there (Props/C12.lean `zero_gives_zeros`); that `zeros_like` represents `0 • ψ` is not stated.
-  * `QRProvider` itself (existence of a thin QR factorisation of every real matrix) is a hypothesis, not proved here.
-  * E, W of an MPO: `shapeOf` puts the whole physical dimension into E (`W = 1`); the model's rows `N·E·W` depend on
-    `E·W` only, so an MPO with `E·W = d` has the same control flow — not stated as a theorem.
+  * `QRProvider` itself (existence of a thin QR factorisation of every real matrix) and the existence part of `SvdCons`
+    are hypotheses, not proved here.
 -/
 import QecVerif.Lemmas.SweepShape
 import QecVerif.Props.C12
